@@ -128,6 +128,17 @@ def node_for(ref, host, uuid_of, host_table):
     hr_, hc_ = host
     k = ref["kind"]
     node = {}
+    if k == "colon":
+        # a rectangle stored the other way Numbers has: two cell reference nodes joined by a colon node
+        br, er, bc, ec = ref["abs"]
+        extra = {}
+        if tuple(ref["to"]) != tuple(host_table):
+            extra = {"AST_cross_table_reference_extra_info": {"table_id": NumbersUUID(uuid_of[tuple(ref["to"])]).protobuf4}}
+        ends = []
+        for r, c, ra, ca in ((ref["r0"], ref["c0"], br, bc), (ref["r1"], ref["c1"], er, ec)):
+            ends.append({"AST_node_type": "CELL_REFERENCE_NODE", "AST_row": {"row": r if ra else r - hr_, "absolute": ra},
+                         "AST_column": {"column": c if ca else c - hc_, "absolute": ca}, **extra})
+        return [*ends, {"AST_node_type": "COLON_NODE"}]
     if k in ("cell", "row", "col"):
         node["AST_node_type"] = "CELL_REFERENCE_NODE"
         if k in ("cell", "row"):
@@ -168,7 +179,7 @@ def references(draw, config):
     host = [draw(st.integers(host_t["hr"], host_t["rows"] - 1)), draw(st.integers(host_t["hc"], host_t["cols"] - 1))]
     same = draw(st.integers(0, 2)) == 0
     ts, tt, tgt = (hs, ht, host_t) if same else draw(st.sampled_from(tabs))
-    kind = draw(st.sampled_from(["cell", "cell", "rect", "rect", "rows", "cols", "row", "col", "row", "col"]))
+    kind = draw(st.sampled_from(["cell", "cell", "rect", "rect", "rows", "cols", "row", "col", "row", "col", "colon"]))
     R, C = tgt["rows"], tgt["cols"]
     b = st.booleans()
     ref = {"to": [ts, tt], "kind": kind, "host_table": [hs, ht], "host": host}
@@ -183,7 +194,7 @@ def references(draw, config):
         r1 = draw(st.integers(r0, R - 1))
         c0 = draw(st.integers(0, C - 1))
         c1 = draw(st.integers(c0, C - 1))
-        if kind == "rect" and (r0, c0) == (r1, c1):
+        if kind in ("rect", "colon") and (r0, c0) == (r1, c1):
             if c1 < C - 1:
                 c1 += 1
             else:
@@ -199,7 +210,7 @@ def references(draw, config):
 
 def nontrivial(ref):
     cross = ref["to"] != ref["host_table"]
-    mixed = ref["kind"] in ("rect", "rows", "cols") and len(set(ref["abs"])) > 1
+    mixed = ref["kind"] in ("rect", "colon", "rows", "cols") and len(set(ref["abs"])) > 1
     return cross or mixed or ref["kind"] in ("row", "col", "rows", "cols")
 
 
@@ -231,7 +242,7 @@ def judge(text, config, ref):
         if (p["row_abs"], p["col_abs"]) != (ref["row_abs"], ref["col_abs"]):
             return ("wrong_dollar", "cell"), f"{text!r}: '$' marks {(p['row_abs'], p['col_abs'])}, stored absolute flags {(ref['row_abs'], ref['col_abs'])}"
         return None
-    if kind == "rect":
+    if kind in ("rect", "colon"):
         if p["kind"] != "rect":
             return ("wrong_shape", kind), f"{text!r} reads as {p['kind']}, stored node is a rectangle"
         if (p["r0"], p["c0"], p["r1"], p["c1"]) != (ref["r0"], ref["c0"], ref["r1"], ref["c1"]):
@@ -289,7 +300,7 @@ def check_config(ctx, case):
                     used[key] = ref
                     node = node_for(ref, ref["host"], uuid_of, (hs, ht))
                     model._formulas.add_table(t._table_id)
-                    fid = model._formulas.lookup_key(t._table_id, TSCE.FormulaArchive(AST_node_array={"AST_node": [node]}))
+                    fid = model._formulas.lookup_key(t._table_id, TSCE.FormulaArchive(AST_node_array={"AST_node": node if isinstance(node, list) else [node]}))
                     t.cell(*ref["host"])._formula_id = fid
                 doc.save(tmp / "r.numbers")
                 return Document(tmp / "r.numbers"), list(used.values())
